@@ -105,7 +105,8 @@ class Authorization:
         if scheme == "basic":
             try:
                 username, _, password = base64.b64decode(rest).decode().partition(":")
-            except (binascii.Error, UnicodeError):
+            except (binascii.Error, UnicodeError, ValueError):
+                # b64decode raises plain ValueError for non-ASCII text.
                 return None
 
             return cls(scheme, {"username": username, "password": password})
